@@ -8,6 +8,7 @@ package lintcmd
 
 import (
 	"fmt"
+	"path"
 	"sort"
 	"strings"
 )
@@ -256,9 +257,16 @@ func (v c10Variant) render(b *c10Base) string {
 }
 
 // c10Glob: '*' matches any run of characters, everything else literally; fold => ASCII case-insensitive.
+// Names that use more of the glob syntax (character classes, ranges, negation, '?', backslash
+// escapes) are matched by the standard library's path.Match, the documented reference for that
+// syntax (the code under test uses path/filepath); a malformed pattern matches nothing.
 func c10Glob(pat, s string, fold bool) bool {
 	if fold {
 		pat, s = strings.ToLower(pat), strings.ToLower(s)
+	}
+	if strings.ContainsAny(pat, "[]?\\^") {
+		m, err := path.Match(pat, s)
+		return err == nil && m
 	}
 	var m func(p, t string) bool
 	m = func(p, t string) bool {
